@@ -65,7 +65,7 @@ def make_inputs(job, vals=None):
     """data points (named as the loader names them), samples, cluster table, expected mutation list"""
     import pandas as pd
     n, D, G = job["n"], job["D"], job["G"]
-    samples = ["s1", "s2"][:D]
+    samples = ["s2", "s1"][:D]   # input order deliberately not the sorted order: per-sample columns are looked up by input position
     dps = []
     muts = {}
     for i in range(n):
@@ -97,7 +97,7 @@ def build_tree(job, dps):
     return f, tree
 
 
-def check_table(job, f, tree, table, muts, samples, newick):
+def check_table(job, f, tree, table, muts, samples, newick, oracle=None):
     """Ground assertions on the produced table; returns a problem string or None."""
     names = set(int(x) for x in re.findall(r"-?\d+", newick.replace("root", "")))
     rows = table.to_dict("records")
@@ -127,6 +127,12 @@ def check_table(job, f, tree, table, muts, samples, newick):
             if not (0 <= ccf <= 1 and -1e-12 <= prev <= 1):
                 return f"ccf {ccf} / prevalence {prev} outside [0,1]"
             key = (r["clone_id"], r["sample_id"])
+            if oracle is not None:
+                # "those of that clone": the MAP values of this clone in THIS sample (input position of the sample)
+                k = samples.index(r["sample_id"])
+                wc, wp = float(oracle[0][r["clone_id"]][k]), float(oracle[1][r["clone_id"]][k])
+                if abs(ccf - wc) > 1e-12 or abs(prev - wp) > 1e-12:
+                    return f"clone {r['clone_id']} sample {r['sample_id']}: table ccf/prevalence {ccf}/{prev}, MAP estimate of that clone and sample {wc}/{wp}"
             if by_clone.setdefault(key, (ccf, prev)) != (ccf, prev):
                 return f"rows of clone {r['clone_id']} disagree on ccf"
     # ccf structure: parent >= sum of children, prevalence = difference, top-level sum <= 1 (per sample)
@@ -201,8 +207,10 @@ def work(job):
 
     def one():
         table, written, newick = produce(job, dps, samples, clusters, tree)
-        p1 = check_table(job, f, tree, table, muts, samples, tree.to_newick_string())
-        p2 = check_table(job, f, tree, written, muts, samples, newick)
+        from phyclone.process_trace.map import get_map_node_ccfs_and_clonal_prev_dicts
+        oracle = get_map_node_ccfs_and_clonal_prev_dicts(tree)   # C10's subject; same comparisons, so no new paths
+        p1 = check_table(job, f, tree, table, muts, samples, tree.to_newick_string(), oracle)
+        p2 = check_table(job, f, tree, written, muts, samples, newick, oracle)
         same = len(table) == len(written)
         return p1 or p2 or (None if same else "written table differs from get_clone_table")
 
@@ -236,7 +244,9 @@ def replay(case):
         table, written, newick = produce(job, dps, samples, clusters, tree)
     except Exception as e:  # noqa
         return True, {"exception": repr(e)}
-    p = check_table(job, f, tree, table, muts, samples, tree.to_newick_string()) or check_table(job, f, tree, written, muts, samples, newick)
+    from phyclone.process_trace.map import get_map_node_ccfs_and_clonal_prev_dicts
+    oracle = get_map_node_ccfs_and_clonal_prev_dicts(tree)
+    p = check_table(job, f, tree, table, muts, samples, tree.to_newick_string(), oracle) or check_table(job, f, tree, written, muts, samples, newick, oracle)
     return bool(p), p
 
 
